@@ -48,6 +48,7 @@ package server
 //@   nosafety except close
 //@   requires nifa != nil && dev != nil && spec_ifaInv(nifa)
 //@   ensures spec_ifaInv(nifa)
+//@   ensures nifa.devStatus == dev
 
 //@ contract (*netIfa).stop
 //@   props C33
